@@ -69,9 +69,9 @@ for pid, (cat, ref, text, note, tech) in sorted(LEVEL.items()):
 man = {
     "version": 1,
     "setup_cmd": "bin/setup",
-    "hooks": {"guard": "cfg(mina_verif)", "enable": "RUSTFLAGS --cfg mina_verif via harness/.cargo/config.toml (no hook in /repo is needed so far)",
+    "hooks": {"guard": "cfg(mina_verif)", "enable": "rustflags --cfg mina_verif in harness/.cargo/config.toml and gen/.cargo/config.toml (hook: MappedTimelineAnimator::verif_snapshot in core/src/animator.rs)",
               "baseline_off_cmd": "cd /repo && cargo nextest run --workspace --no-fail-fast --offline",
-              "source_commits": [], "add_only": True},
+              "source_commits": ["8d6e84a", "e81e37b"], "add_only": True},
     "engines": [{"name": "tlc", "path": "/verif/spec", "serves_properties": sorted(LEVEL), "kind_free_text": "TLA+ specification (spec/*.tla) model-checked with TLC / Apalache, bound to /repo by bin/check via the Rust harnesses"}],
     "checks": checks,
     "not_applicable": [{"property_id": k, "reason": v} for k, v in sorted(NA.items())],
